@@ -9,6 +9,7 @@ package main
 // Canonical packet text: see lean/Oracle/RtmpPkt.lean.
 
 import (
+	"io"
 	"bytes"
 	"encoding/hex"
 	"fmt"
@@ -591,12 +592,34 @@ type c03End struct {
 	pending map[uint64]string
 }
 
+var c03PairN int
+
+// c03Pieces returns at most n bytes per Read.
+type c03Pieces struct {
+	r io.Reader
+	n int
+}
+
+func (p *c03Pieces) Read(b []byte) (int, error) {
+	if len(b) > p.n {
+		b = b[:p.n]
+	}
+	return p.r.Read(b)
+}
+
 func c03Pair() (a, b *c03End) {
 	ab, ba := &bytes.Buffer{}, &bytes.Buffer{}
 	a = &c03End{out: ab, pending: map[uint64]string{}}
 	b = &c03End{out: ba, pending: map[uint64]string{}}
-	a.p = rtmp.NewProtocol(&h.RW{Reader: ba, Writer: ab})
-	b.p = rtmp.NewProtocol(&h.RW{Reader: ab, Writer: ba})
+	// every other pair reads through a transport that hands the bytes over in small pieces (a chunk header may arrive in
+	// two reads, as it does on a socket and at the refill boundary of a buffered reader)
+	c03PairN++
+	var ra, rb io.Reader = ba, ab
+	if c03PairN%2 == 0 {
+		ra, rb = &c03Pieces{r: ba, n: 1 + c03PairN%5}, &c03Pieces{r: ab, n: 1 + c03PairN%7}
+	}
+	a.p = rtmp.NewProtocol(&h.RW{Reader: ra, Writer: ab})
+	b.p = rtmp.NewProtocol(&h.RW{Reader: rb, Writer: ba})
 	return
 }
 
@@ -1235,10 +1258,17 @@ func c03(c *h.Ctx) {
 	// 6c. large packets behind a large chunk size: Set Chunk Size above the reader's own buffer sizes, then a connect
 	// whose command object makes the payload cross them, then an ordinary request that must still arrive
 	// (all uint32 control values: also sizes with the top bit set — both ends must take the same 32 bits)
-	for _, cs := range []int{128, 4095, 4096, 4097, 5000, 60000, 0x7fffffff, 0x80000001, 0x800000c8, 0x80001000, 0xffffff40, 0xffffffff} {
+	for _, cs := range []int{1, 128, 4095, 4096, 4097, 5000, 60000, 0x7fffffff, 0x80000001, 0x800000c8, 0x80001000, 0xffffff40, 0xffffffff} {
 		for _, L := range []int{100, 4000, 4096, 4200, 9000, 20000} {
 			if !c.Thorough() && (cs+L)%3 == 0 && cs < 0x7fffffff {
 				continue
+			}
+			if cs == 1 {
+				// chunk size 1: a 70 000-byte connect is 70 000 chunks on one chunk stream (more than a 16-bit counter holds)
+				if L != 100 {
+					continue
+				}
+				L = 70000
 			}
 			a, b := c03Pair()
 			sc := rtmp.NewSetChunkSize()
